@@ -61,6 +61,11 @@ func DecodeDir(codec Codec, rd io.Reader, d *Dir) error {
 		return err
 	}
 
+	// Do not trust the size before the input is known to hold that much.
+	if l, ok := rd.(interface{ Len() int }); ok && int(ll) > l.Len() {
+		return io.ErrUnexpectedEOF
+	}
+
 	p := make([]byte, int(ll)+2)
 	binary.LittleEndian.PutUint16(p, ll) // must have size at start
 
@@ -249,6 +254,16 @@ type decoder struct {
 	rd io.Reader
 }
 
+// need reports an error if fewer than n bytes remain to be read, when the
+// reader can tell.  It is checked before allocating space for a length or
+// count taken from the wire, so that the allocation is bounded by the input.
+func (d *decoder) need(n int) error {
+	if l, ok := d.rd.(interface{ Len() int }); ok && n > l.Len() {
+		return io.ErrUnexpectedEOF
+	}
+	return nil
+}
+
 // read9p extracts values from rd and unmarshals them to the targets of vs.
 func (d *decoder) decode(vs ...interface{}) error {
 	for _, v := range vs {
@@ -264,6 +279,10 @@ func (d *decoder) decode(vs ...interface{}) error {
 				return err
 			}
 
+			if err := d.need(int(ll)); err != nil {
+				return err
+			}
+
 			if ll > 0 {
 				*v = make([]byte, int(ll))
 			}
@@ -276,6 +295,10 @@ func (d *decoder) decode(vs ...interface{}) error {
 
 			// implement string[s] encoding
 			if err := d.decode(&ll); err != nil {
+				return err
+			}
+
+			if err := d.need(int(ll)); err != nil {
 				return err
 			}
 
@@ -295,6 +318,11 @@ func (d *decoder) decode(vs ...interface{}) error {
 			var ll uint16
 
 			if err := d.decode(&ll); err != nil {
+				return err
+			}
+
+			// every string takes at least its two size bytes
+			if err := d.need(2 * int(ll)); err != nil {
 				return err
 			}
 
@@ -325,6 +353,11 @@ func (d *decoder) decode(vs ...interface{}) error {
 				return err
 			}
 
+			// every qid takes 13 bytes
+			if err := d.need(13 * int(ll)); err != nil {
+				return err
+			}
+
 			elements := make([]interface{}, int(ll))
 			*v = make([]Qid, int(ll))
 			for i := range elements {
@@ -338,6 +371,10 @@ func (d *decoder) decode(vs ...interface{}) error {
 			var ll uint16
 
 			if err := d.decode(&ll); err != nil {
+				return err
+			}
+
+			if err := d.need(int(ll)); err != nil {
 				return err
 			}
 
